@@ -397,10 +397,44 @@ fn gen_retention_case(seed: u64) -> Case {
     Case { run, res, sample, retain: true }
 }
 
+/// Gap case: a victim evaluator advances one step at a time while whole-line
+/// filler evaluators (one board per step) advance exactly G steps in between,
+/// G around powers of two: state keyed by a wrapping counter or stamp.
+fn gen_gap_case(seed: u64) -> Case {
+    let mut rng = Rng::new(seed);
+    let params = ScenParams { max_players: 2, max_product: 4, allow_zero_players: false, hash_seeds: false };
+    let victim = gen_scenario(&mut rng, &params);
+    let mut scens = vec![victim];
+    let fi = rng.usize_below(NPOS - 60);
+    let mut specs = vec![TaskSpec { scen: 0, scope: Some((pos_from_index(fi), pos_from_index(fi + rng.range(12, 50) as usize))), pre: vec![], extra_polls: 0 }];
+    for i in 0..rng.range(2, 3) as usize {
+        // fillers: no players or one single-combo player on cards the victim does not hold
+        let flop = gen_flop(&mut rng);
+        let players = if rng.chance(1, 2) { vec![] } else { vec![RangeRecipe::simple(gen_combos(&mut rng, 1, false).into_iter().map(|c| (c.0, c.1, 1.0f32.to_bits())).collect())] };
+        scens.push(Scenario { flop, players });
+        specs.push(TaskSpec { scen: i + 1, scope: None, pre: vec![], extra_polls: 0 });
+    }
+    let execs = rng.range(0, 1) as usize;
+    let cfg = SchedCfg { policy: Policy::Gaps, crash_resume_pm: 0, restart_pm: 0, max_crashes: 0, migrate: false, max_steps: 400_000 };
+    let mut w = World::new(&scens, &specs, execs);
+    w.track_states = false;
+    schedule(&mut w, &mut rng, &cfg);
+    let run = Run { scens: scens.clone(), specs, steps: w.trace.clone(), execs };
+    drop(w);
+    let res = check_run(&run, false);
+    let sample = json!({"gap_case": true, "victim": scens[0].short(), "fillers": scens.len() - 1, "trace_head": encode_steps(&run.steps).into_iter().take(10).collect::<Vec<_>>()});
+    Case { run, res, sample, retain: false }
+}
+
 fn gen_case(seed: u64, thorough: bool, fresh: bool) -> Case {
     let mut rng = Rng::new(seed);
     if !fresh && rng.chance(1, 40) {
         return gen_retention_case(rng.next_u64());
+    }
+    if !fresh && rng.chance(1, 10) {
+        let mut c = gen_gap_case(rng.next_u64());
+        *c.res.probes.entry("gap_runs_counter_wrap_schedules".into()).or_insert(0) += 1;
+        return c;
     }
     let e = if thorough && rng.chance(1, 10) { rng.range(9, 32) } else { rng.range(1, 8) } as usize;
     let nscen = rng.range(1, e.min(4) as u64) as usize;
